@@ -193,6 +193,10 @@ fn main() {
             let mut runs = 0u64;
             for idx in from..to {
                 let base = gen::base_plan(seed, props::prop_no(&prop), idx, &prof);
+                if base.cfg.n.max(base.cfg.m) >= 100 {
+                    // the large-capacity configuration would take an interpreter many minutes per plan
+                    continue;
+                }
                 eprintln!("MIRI-BASE {idx}");
                 let dry = dispatch::run_plan(&base);
                 runs += 1;
